@@ -8,9 +8,16 @@ package vx
 
 import (
 	"fmt"
+	"runtime"
 	"strings"
+	"sync"
 	"syscall"
 )
+
+func caller() string {
+	_, f, l, _ := runtime.Caller(2)
+	return fmt.Sprintf("%s:%d", f, l)
+}
 
 type replayFile struct {
 	Model map[string]uint64
@@ -25,7 +32,7 @@ var (
 
 // AssumeFailed is panicked when a replayed input does not satisfy an
 // assumption (the counterexample does not apply natively).
-type AssumeFailed struct{}
+type AssumeFailed struct{ Where string }
 
 // load reads the model from $VX_MODEL ("name\x1fvalue\x1ename\x1fvalue...").
 // It deliberately uses nothing but package syscall: harnesses stub functions
@@ -110,7 +117,7 @@ func String(name string, n int) string { return string(Bytes(name, n)) }
 func Choice(name string, n int) int {
 	v := int(val(name))
 	if v < 0 || v >= n {
-		panic(AssumeFailed{})
+		panic(AssumeFailed{caller()})
 	}
 	return v
 }
@@ -120,7 +127,7 @@ func Concrete(x int) int { return x }
 
 func Assume(b bool) {
 	if !b {
-		panic(AssumeFailed{})
+		panic(AssumeFailed{caller()})
 	}
 }
 
@@ -202,8 +209,29 @@ func Symbolic() bool { return false }
 func IsConcrete(v any) bool { return true }
 
 // Held reports the lock state of *sync.Mutex / *sync.RWMutex mu as tracked by
-// the engine: 0 free, 1 read-locked, 2 write-locked.  Natively unknown (-1).
-func Held(mu any) int { return -1 }
+// the engine: 0 free, 1 read-locked, 2 write-locked.  Natively the state is
+// probed with TryLock/TryRLock (single-threaded replay).
+func Held(mu any) int {
+	switch m := mu.(type) {
+	case *sync.Mutex:
+		if m.TryLock() {
+			m.Unlock()
+			return 0
+		}
+		return 2
+	case *sync.RWMutex:
+		if m.TryLock() {
+			m.Unlock()
+			return 0
+		}
+		if m.TryRLock() {
+			m.RUnlock()
+			return 1
+		}
+		return 2
+	}
+	return -1
+}
 
 // Guard declares that state (pointer to a struct or field, map, slice; the
 // fields and maps it directly contains included) is protected by the mutex mu:
